@@ -1,7 +1,7 @@
 """C18 — settings are validated; no accepted configuration can panic."""
 import itertools, random
 import vlib
-from props import netprops, httpplan
+from props import netprops, httpplan, cliplan
 
 LEVEL = "proof"
 RULE = ("exhaustive matrix: (read, write, connect) in {None, 0, 1 ns, 1 ms, u64::MAX s}^3 x retries in {0, 1, 2, usize::MAX-1, "
@@ -11,7 +11,8 @@ RULE = ("exhaustive matrix: (read, write, connect) in {None, 0, 1 ns, 1 ms, u64:
         "retry counts, for one scripted query per modelled protocol family; the extreme durations (u64::MAX s, 1 ns, None, mixed) "
         "on the largest answered exchanges of every family; extra request settings: all combinations of given / omitted fields through the "
         "setters, the four protocol conversions and into_extra; the HTTP client inside the model (`http-plan`, generator `httpdur`) with "
-        "17 duration triples of every magnitude against a loopback listener that answers. Oracle: zero anywhere => InvalidInput on every path; otherwise "
+        "17 duration triples of every magnitude against a loopback listener that answers; the timeout flags of the real gamedig_cli binary (plan hook) "
+        "against the model of main. Oracle: zero anywhere => InvalidInput on every path; otherwise "
         "accepted unchanged and usable. Non-trivial = every case (all are distinct configurations).")
 ASSUMPTIONS = ["what clap's and serde's derive macros generate is modelled (field-wise construction), not verified",
                "std: set_read_timeout(Some(0)) is Err, connect_timeout(0) is Err, huge durations are clamped (exercised on real sockets)"]
@@ -31,7 +32,8 @@ def run(rep, tier, seed, replay=None):
     if replay is not None:
         for o in httpplan.run(rep, [l for l in replay if httpplan.is_http(l)], "c18hp"):
             httpplan.c18_oracle(rep, o)
-        replay = [l for l in replay if not httpplan.is_http(l)]
+        cliplan.run(rep, [l for l in replay if cliplan.is_plan(l)], count="cli-flags")
+        replay = [l for l in replay if not httpplan.is_http(l) and not cliplan.is_plan(l)]
         if replay:
             vlib.correspond(rep, replay, oracle=netprops.crash_oracle, tag="c18")
         return
@@ -252,5 +254,8 @@ def run(rep, tier, seed, replay=None):
     for o in httpplan.run(rep, httpplan.gen("httpdur", seed + 18, 51 if tier == "quick" else 255) + [l for l in netprops.corpus("C18") if httpplan.is_http(l)],
                           "c18hp", count="extreme-durations:http-plan"):
         httpplan.c18_oracle(rep, o)
+    # the flags of the real command-line tool (its timeout group is an Option: present iff one of its flags occurs): zero in every
+    # spelling and malformed values end with a usage error, accepted values reach the library unchanged, omitted ones as 4 s / 0
+    cliplan.run(rep, cliplan.gen_c18(seed + 18, tier), count="cli-flags")
     rep.extra_cov["exhaustive"] = True
     rep.extra_cov["explanation"] = "the new/serde matrices are enumerated completely in both tiers; the flag matrix completely in the thorough tier"
